@@ -394,10 +394,12 @@ def run(ctx):
     n = 12
     X = nrng.normal(size=(n, 2))
     F = nrng.normal(size=(n, 2)) + 0.5
-    tcol = np.repeat([0.0, 1.0], n // 2)[:, None]
+    # time points of unequal sizes and per-time-point normalisation switched on: nn_distances then differ from the
+    # un-normalised distances the length-scale heuristic must use, also when nn_distances is handed in as an intermediate
+    tcol = np.repeat([0.0, 1.0], [n // 3, n - n // 3])[:, None]
     base_kw = dict(optimizer="adam", n_iter=2, jit=False)
     confs = {"DensityEstimator": (mellon.DensityEstimator, {}, X, F),
-             "TimeSensitiveDensityEstimator": (mellon.TimeSensitiveDensityEstimator, {"ls_time": 1.0},
+             "TimeSensitiveDensityEstimator": (mellon.TimeSensitiveDensityEstimator, {"ls_time": 1.0, "normalize_per_time_point": True},
                                                np.concatenate([X, tcol], axis=1), np.concatenate([F, tcol], axis=1)),
              "DimensionalityEstimator": (mellon.DimensionalityEstimator, {"k": 3}, X, F)}
     maxlen = 5 if ctx.thorough else 3
